@@ -61,6 +61,10 @@ type c15Round struct {
 	Groups [][]int  `json:"groups"` // indexes into the target list, per group, in emission order
 	Salt   uint64   `json:"salt"`
 	Lift   []string `json:"lift"` // label names moved to group level where all members agree
+	// Both: label names that are ALSO set at group level although every target sets them
+	// itself (the target's value wins); BothOther: the group carries another value
+	Both      []string `json:"both,omitempty"`
+	BothOther bool     `json:"both_other,omitempty"`
 }
 
 type c15Spec struct {
@@ -76,6 +80,7 @@ func buildUpdate(ts []*lTarget, r c15Round) map[string][]*targetgroup.Group {
 		}
 		job := ts[idxs[0]].Job
 		g := &targetgroup.Group{Source: fmt.Sprintf("g%d", gi), Labels: model.LabelSet{}}
+		both := map[string]bool{}
 		// labels every member agrees on may live at group level
 		for _, ln := range r.Lift {
 			v, all := "", true
@@ -90,10 +95,30 @@ func buildUpdate(ts []*lTarget, r c15Round) map[string][]*targetgroup.Group {
 				g.Labels[model.LabelName(ln)] = model.LabelValue(v)
 			}
 		}
+		for _, ln := range r.Both {
+			if _, lifted := g.Labels[model.LabelName(ln)]; lifted || ln == model.AddressLabel {
+				continue
+			}
+			all := true
+			for _, i := range idxs {
+				if _, ok := ts[i].Labels[ln]; !ok {
+					all = false
+				}
+			}
+			if !all {
+				continue
+			}
+			v := ts[idxs[0]].Labels[ln]
+			if r.BothOther {
+				v = "group-level-" + v
+			}
+			both[ln] = true
+			g.Labels[model.LabelName(ln)] = model.LabelValue(v)
+		}
 		for _, i := range idxs {
 			ls := model.LabelSet{}
 			for k, v := range ts[i].Labels {
-				if _, lifted := g.Labels[model.LabelName(k)]; lifted {
+				if _, lifted := g.Labels[model.LabelName(k)]; lifted && !both[k] {
 					continue
 				}
 				ls[model.LabelName(k)] = model.LabelValue(v)
@@ -309,6 +334,12 @@ func drawRound(tp *core.Tape, ts []*lTarget) c15Round {
 			r.Lift = append(r.Lift, ln)
 		}
 	}
+	for _, ln := range []string{"env", "id", "variant", "__meta_other", "__param_target"} {
+		if tp.Bool("both_levels", 1, 4) {
+			r.Both = append(r.Both, ln)
+		}
+	}
+	r.BothOther = tp.Bool("both_other_value", 1, 2)
 	return r
 }
 
@@ -428,6 +459,7 @@ func checkC15Structure(e *core.Env, ts []*lTarget, td *discovery.TargetsDiscover
 	m := td.ActiveTargetsByHash()
 	// find the hash of a logical target by re-deriving its distinguishing final labels
 	find := func(t *lTarget) (uint64, bool) {
+		var matches []uint64
 		for h, x := range m {
 			l := x.ShardTarget.Labels
 			if l.Get("id") != t.Labels["id"] || l.Get("variant") != t.Labels["variant"] || l.Get("extra") != t.Labels["extra"] || l.Get("env") != t.Labels["env"] {
@@ -461,9 +493,16 @@ func checkC15Structure(e *core.Env, ts []*lTarget, td *discovery.TargetsDiscover
 			if _, ok := t.Labels["__param_module"]; !ok && t.Job == "ja" && u.Get("module") != "http_2xx" {
 				continue
 			}
-			return h, true
+			matches = append(matches, h)
 		}
-		return 0, false
+		if len(matches) == 0 {
+			return 0, false
+		}
+		sort.Slice(matches, func(a, b int) bool { return matches[a] < matches[b] })
+		if len(matches) > 1 {
+			e.Violate("not-collapsed", "kind=identical-final-labels-and-url", "%d active targets have the final labels and URL of logical target %s but different hashes %v", len(matches), t.ID, matches)
+		}
+		return matches[0], true
 	}
 	byID := map[string]*lTarget{}
 	for _, t := range ts {
